@@ -141,6 +141,9 @@ pub fn families() -> Vec<(Gram, Vec<&'static str>)> {
         (Gram::Lark("start: /[a-z]+/ \"=done\"\n".into()), vec!["xy=done", "=do", "ne"]),
         (Gram::Json(json!({"const":"ok"})), vec!["\"ok\"", "ok"]),
         (Gram::Regex("(foo|bar)baz".into()), vec!["foobaz", "barbaz", "obaz"]),
+        // lexemes that take all plain text but not every whitespace string (the text slice applies, the whitespace slice does not)
+        (Gram::Lark("start: (LINE \"\\n\")+\nLINE: /[^\\n]+/\n".into()), vec!["some text\tmore \r\n", "\t\t", " \t", "\r", "a\t", "text"]),
+        (Gram::Lark("start: line+\nline: KEY \"=\" VALUE \"\\n\"\nKEY: /[a-z]+/\nVALUE: /[^\\n]*/\n".into()), vec!["k=a b\tc\n", "\t", " \t ", "=a", "b\n"]),
         // forced text whose last byte can start a longer token, followed by a wide string lexeme (where token slices apply)
         (Gram::Lark("start: \"k:\" S\nS: /\"[^\"\\\\\\x00-\\x1F\\x7F]*\"/\n".into()), vec!["k:\"ab cd\"", "\"a", "\"ab", "b c", "d\"", ":\""]),
         (Gram::Json(json!({"type":"object","properties":{"s":{"type":"string"},"t":{"type":"string","maxLength":12}},"required":["s","t"],"additionalProperties":false})), vec!["{\"s\":\"hello w\",\"t\":\"ab\"}", "\":\"h", "\"he", "llo", "\",\"t\":\"a", "\"ab"]),
